@@ -3,6 +3,7 @@
    count and an error) are universally quantified oracles. *)
 From Coq Require Import List Ascii String.
 From GT Require Import Base.GoStr Tree.Tree Tree.Gen Api.Simple Api.Programmable Api.Faults Proofs.Faults Proofs.Extras.
+From GT Require Import Conc.Pipeline Proofs.PipeComplete.
 Import ListNotations.
 
 (* nil is returned only if the writer accepted every byte of the output (From-Markdown) *)
@@ -57,6 +58,26 @@ Theorem C14_transient_root : forall c t k acc,
   acc = chunk_bytes (fst (output_root c t)) /\ nonempty_writes (fst (output_root c t)) <= k.
 Proof. exact transient_failure_reported_root. Qed.
 Print Assumptions C14_transient_root.
+
+(* MASSIVE MODE (pipeline LTS, every schedule): a failing reader is the source's error, a failing
+   writer / callback / file-system operation is an item that fails at the sink; the call returns
+   nil only if neither happened, and an error it returns is one of them or the cancellation *)
+Theorem C14_massive_nil_means_no_fault : forall p s, reach p s -> st_main s = Some None ->
+  p_src_err p = false /\
+  forall n d i, nth_error (p_stages p) n = Some d -> In i (p_items p) -> d_fails d i = false.
+Proof.
+  intros p s Hr Hm. split; [exact (nil_return_no_source_error p s Hr Hm)|exact (nil_return_no_failure p s Hr Hm)].
+Qed.
+Print Assumptions C14_massive_nil_means_no_fault.
+
+Theorem C14_massive_error_is_a_fault : forall p s e, reach p s -> st_main s = Some (Some e) ->
+  match e with
+  | ESrc => p_src_err p = true
+  | EStage n i => fails_at p n i
+  | ECtx => st_ucancel s = true /\ p_user_may_cancel p = true
+  end.
+Proof. exact error_return_exact. Qed.
+Print Assumptions C14_massive_error_is_a_fault.
 
 Definition s (x : string) : str := list_ascii_of_string x.
 Definition tc := {| c_bf := Tree.Grower.default_bfmt; c_enc := EncDefault; c_dry := false; c_exts := []; c_noiter := true |}.
